@@ -2,6 +2,7 @@ import IgrisModel.Common.Proto
 import IgrisModel.C13.Model
 import IgrisModel.C13.Shape
 import IgrisModel.C13.Tie
+import IgrisModel.C13.Nested
 open Igris.Proto Igris.C13
 
 def hexOfChars (cs : List Char) : String :=
@@ -80,6 +81,38 @@ def showPF (fmt : List Char) (st : List Igris.C06.Arg) (x : FV) (r : Res) : Stri
     | none => showRes r
   | _, _ => showRes r
 
+/-- one conversion of a `pfn` op: its result field, and the characters it hands to the callback -/
+def pieceOf (kind f a : String) : Option (String × List Char) := do
+  let fmt ← (parseBytes? f).map fun bs => bs.map fun c => Char.ofNat c.toNat
+  if kind = "d" then
+    let bits ← parseHexNat? a
+    let r := printfF b64A cfgNow fmt [] (ofBits bits) (decide (bits ≥ 2 ^ 63))
+    let out := match r with | .done out _ => out | _ => []
+    pure (showPF fmt [] (ofBits bits) r, out)
+  else
+    let arg ← (match a.toList with
+      | 'i' :: ':' :: rest => (String.ofList rest).toInt?.map fun v => Igris.C06.Arg.int (BitVec.ofInt 32 v)
+      | 'l' :: ':' :: rest => (String.ofList rest).toInt?.map fun v => Igris.C06.Arg.long (BitVec.ofInt 64 v)
+      | 's' :: ':' :: rest => (parseBytes? (String.ofList rest)).map fun bs =>
+          Igris.C06.Arg.str (bs.map (fun c => Char.ofNat c.toNat) ++ [Igris.C06.NUL])
+      | _ => none : Option Igris.C06.Arg)
+    match Igris.C06.printf fmt [arg] with
+    | .done out pc => pure (toString pc ++ " " ++ hexOfChars out, out)
+    | .fault => pure ("fault", [])
+    | .badarg => pure ("badarg", [])
+    | .unsupported => pure ("unsupported", [])
+    | .diverged => pure ("diverged", [])
+
+/-- what the model embeds of the constants of the code (op `consts`) -/
+def constsLine : String :=
+  "BUFF_SZ=" ++ toString cfgNow.size ++ " FRAC_MAX=" ++ toString cfgNow.fracMax ++ " EXP_MAX=" ++ toString cfgNow.expMax ++
+  " PREC_DEFAULT=6 sizeof_DOUBLE=8 sizeof_int=4 ops=1,2,4,8,16,32,16384,8192 sizeof_long_double=16"
+
+def opsOfMask (m : Nat) : Igris.C06.Ops :=
+  { left := m % 2 = 1, sign := (m / 2) % 2 = 1, space := (m / 4) % 2 = 1, spec := (m / 8) % 2 = 1,
+    zero := (m / 16) % 2 = 1, prec := (m / 32) % 2 = 1, upper := (m / 16384) % 2 = 1,
+    len := if (m / 8192) % 2 = 1 then .bigL else .none }
+
 def stepLine (_ : Unit) (line : String) : Unit × String :=
   let r : Option String :=
     match words line with
@@ -100,6 +133,33 @@ def stepLine (_ : Unit) (line : String) : Unit × String :=
       let m ← parseHexNat? m
       let st ← stars.mapM parseStar
       pure (showPF fmt st (cvt64 (ofBits80 se m)) (printfF b64A cfgNow fmt st (cvt64 (ofBits80 se m)) (decide (se ≥ 32768)) true))
+    | ["pfn", _, k, ka, fa, aa, kb, fb, ab] => do
+      let k ← k.toNat?
+      let (ra, outA) ← pieceOf ka fa aa
+      let (rb, _) ← pieceOf kb fb ab
+      -- the callback of the experiment (Nested.lean): the nested conversion is the independent call
+      let st := runNested k (fun _ => rb) outA
+      pure (ra ++ " | " ++ st.inner.getD "-")
+    | ["pm", _, f, b] => do
+      let fmt ← (parseBytes? f).map fun bs => bs.map fun c => Char.ofNat c.toNat
+      let bits ← parseHexNat? b
+      pure (showPF fmt [] (ofBits bits) (printfF b64A cfgNow fmt [] (ofBits bits) (decide (bits ≥ 2 ^ 63))))
+    | ["consts"] => pure constsLine
+    | ["pfd", b, w, p, m, we, sh] => do
+      let bits ← parseHexNat? b
+      let width ← w.toNat?
+      let precision ← p.toNat?
+      let ops := opsOfMask (← parseHexNat? m)
+      let x := ofBits bits
+      let r := resOf (printF b64A cfgNow FUEL x (decide (bits ≥ 2 ^ 63)) width precision ops (we = "1") (sh = "1"))
+      match r, x with
+      | .done out _, .fin _ mag =>
+        let conv := if sh = "1" then 'g' else if we = "1" then 'e' else 'f'
+        match tieCanon conv ops.prec (if ops.prec then precision else 0) mag out with
+        | some q => pure ("T " ++ toString q.num ++ "/" ++ toString q.den)
+        | none =>
+          if tieSeen b64A cfgNow FUEL (.fin false mag) precision ops (we = "1") (sh = "1") then pure "Tf" else pure (showRes r)
+      | _, _ => pure (showRes r)
     | ["ar", "cvt", se, m] => do
       let se ← parseHexNat? se
       let m ← parseHexNat? m
